@@ -65,20 +65,22 @@ impl<'view, 'map> Iterator for RevTokenIter<'view, 'map> {
             }
         };
 
-        // find the byte offset where our token starts
-        let byte_offset = if last_byte_offset == !0 {
+        // find the byte offset where our token starts, and the column that offset really
+        // corresponds to: a column inside a surrogate pair resolves to the start of that pair,
+        // and the cache below has to remember where we actually are.
+        let (char_offset, byte_offset) = if last_byte_offset == !0 {
             let mut off = 0;
             let mut idx = 0;
             for c in source_line.chars() {
-                if idx >= token.get_dst_col() as usize {
+                if idx + c.len_utf16() > token.get_dst_col() as usize {
                     break;
                 }
                 off += c.len_utf8();
                 idx += c.len_utf16();
             }
-            off
+            (idx, off)
         } else {
-            let chars_to_move = last_char_offset - token.get_dst_col() as usize;
+            let chars_to_move = last_char_offset.saturating_sub(token.get_dst_col() as usize);
             let mut new_offset = last_byte_offset;
             let mut idx = 0;
             for c in source_line
@@ -93,14 +95,14 @@ impl<'view, 'map> Iterator for RevTokenIter<'view, 'map> {
                 new_offset -= c.len_utf8();
                 idx += c.len_utf16();
             }
-            new_offset
+            (last_char_offset.saturating_sub(idx), new_offset)
         };
 
         // remember where we were
         self.source_line = Some((
             source_line,
             token.get_dst_line() as usize,
-            token.get_dst_col() as usize,
+            char_offset,
             byte_offset,
         ));
 
